@@ -417,6 +417,7 @@ impl Prop for C31 {
     fn assumptions() -> Vec<String> {
         vec![
             "every harness write stamps a strictly larger mtime from the simulated wall clock ('content changed but mtime did not' is the documented mtime design, not a violation)".into(),
+            "a zone whose main file is unchanged since it was loaded may be skipped (the loader's mtime design) or reloaded: when an included file changed meanwhile, both the kept data and the newly loaded data are accepted, and the model continues from whichever the server shows".into(),
             "handler-body mode (five sixths of the runs): signal delivery and the signals.forever() loop are stubbed, the harness calls the handler body; whole-daemon mode (one sixth): try_running itself runs, only the signal source is simulated".into(),
             "whole-daemon mode: edits happen only while the signal loop is idle; with datagram loss or failing sends injected, a query left unanswered after four attempts is no observation (counted by probe c31d_query_unanswered)".into(),
             "a torn or EIO-affected file counts as 'failed to load' only when by construction it cannot be a complete valid zone; cut points that leave a complete valid zone are not generated as failures".into(),
@@ -510,8 +511,13 @@ pub(crate) fn expected(served: &BTreeMap<usize, Served>, z: usize) -> (Obs, Obs)
 }
 
 /// The reference model: the served state after a successful reload of `step`'s configuration.
-pub(crate) fn next_model(before: &BTreeMap<usize, Served>, step: &Step, files: &Files) -> BTreeMap<usize, Served> {
+/// Returns the served state after the reload and, for zones whose main file is unchanged since it
+/// was loaded (the loader *may* skip them: its mtime design) but whose reload would now give
+/// something else (an included file changed), the alternative state: the property allows both
+/// "kept as it was" and "newly loaded", so neither skipping nor reloading such a zone may alarm.
+pub(crate) fn next_model(before: &BTreeMap<usize, Served>, step: &Step, files: &Files) -> (BTreeMap<usize, Served>, BTreeMap<usize, Served>) {
     let mut served = BTreeMap::new();
+    let mut alt = BTreeMap::new();
     for (z, pv) in &step.zones {
         let prev = before.get(z).cloned();
         let file = files.main.get(&(*z, *pv));
@@ -525,6 +531,12 @@ pub(crate) fn next_model(before: &BTreeMap<usize, Served>, step: &Step, files: &
                 let skip = matches!(&prev, Some(Served::Data { path, mtime_s, .. }) if *path == *pv && f.mtime_s <= *mtime_s);
                 if skip {
                     simrt::probe("c31_mtime_skip");
+                    if let (Some((v, m)), Some(Served::Data { version, marker, .. })) = (loads(&f.kind, inc), &prev) {
+                        if (v, m) != (*version, *marker) {
+                            alt.insert(*z, Served::Data { version: v, marker: m, path: *pv, mtime_s: f.mtime_s });
+                            simrt::probe("c31_skip_or_reload_both_allowed");
+                        }
+                    }
                     keep(&prev)
                 } else {
                     match loads(&f.kind, inc) {
@@ -554,7 +566,16 @@ pub(crate) fn next_model(before: &BTreeMap<usize, Served>, step: &Step, files: &
         }
         served.insert(*z, new);
     }
-    served
+    (served, alt)
+}
+
+/// `served` with every alternative applied.
+pub(crate) fn with_alts(served: &BTreeMap<usize, Served>, alt: &BTreeMap<usize, Served>) -> BTreeMap<usize, Served> {
+    let mut s = served.clone();
+    for (z, a) in alt {
+        s.insert(*z, a.clone());
+    }
+    s
 }
 
 /// Applies the file edits of `step` to the simulated file system (mtime = `now_s`).
@@ -676,15 +697,17 @@ fn run(scn: &Scn) {
         //     configuration and the files, both known before the reload runs) ------------------
         let expect_ok = step.config_fault == 0;
         let served_before = served.clone();
-        let served_after = if expect_ok { next_model(&served_before, step, &files) } else { served_before.clone() };
+        let (mut served_after, alts) = if expect_ok { next_model(&served_before, step, &files) } else { (served_before.clone(), BTreeMap::new()) };
+        let served_after_alt = with_alts(&served_after, &alts);
         // --- (re)load, optionally with query threads running concurrently ---------------------
         let reload_returned = Arc::new(AtomicU64::new(u64::MAX));
         let mut query_threads = vec![];
         if let (Some((server, _)), true) = (state.as_ref(), scn.concurrent_queries > 0) {
             let before: Vec<(Obs, Obs)> = (0..UNIVERSE.len()).map(|z| expected(&served_before, z)).collect();
             let after: Vec<(Obs, Obs)> = (0..UNIVERSE.len()).map(|z| expected(&served_after, z)).collect();
+            let after_alt: Vec<(Obs, Obs)> = (0..UNIVERSE.len()).map(|z| expected(&served_after_alt, z)).collect();
             for t in 0..scn.concurrent_queries {
-                let (server, before, after, returned) = (server.clone(), before.clone(), after.clone(), reload_returned.clone());
+                let (server, before, after, after_alt, returned) = (server.clone(), before.clone(), after.clone(), after_alt.clone(), reload_returned.clone());
                 query_threads.push(shuttle::thread::spawn(move || {
                     for round in 0..2 {
                         for (z, (zname, class)) in UNIVERSE.iter().enumerate() {
@@ -694,7 +717,7 @@ fn run(scn: &Scn) {
                             let invoked = simrt::stamp();
                             let got = observe(&server, &format!("marker.{zname}"), wire::T_TXT, *class);
                             let fresh = invoked > returned.load(SeqCst);
-                            let ok = got == after[z].0 || (!fresh && got == before[z].0);
+                            let ok = got == after[z].0 || got == after_alt[z].0 || (!fresh && got == before[z].0);
                             if got == before[z].0 && before[z].0 != after[z].0 {
                                 simrt::probe("c31_concurrent_query_saw_old_state");
                             }
@@ -748,6 +771,17 @@ fn run(scn: &Scn) {
             }
         } else {
             simrt::probe("c31_reload_failed_as_a_whole");
+        }
+        // --- a zone the loader may skip or reload: find out which it did, and go on from there ---
+        if let Some((server, _)) = state.as_ref() {
+            for (z, a) in &alts {
+                let (zname, class) = UNIVERSE[*z];
+                let got = observe(server, &format!("marker.{zname}"), wire::T_TXT, class);
+                if got == expected(&served_after_alt, *z).0 && got != expected(&served_after, *z).0 {
+                    served_after.insert(*z, a.clone());
+                    simrt::probe("c31_unchanged_zone_was_reloaded");
+                }
+            }
         }
         served = served_after;
         // --- observe every zone of the universe -----------------------------------------------
